@@ -30,10 +30,15 @@ def budget(cfg, tier):
     if cfg.bits == 16:
         return (30 * 3 if tier == 'quick' else 70 * 6) + 600
     if cfg.bits == 24:
-        return (0 if tier == 'quick' else 8) + 600
+        return (4 if tier == 'quick' else 8) + 600
     if cfg.n >= 1024:
         return 60
     return 600 if tier == 'quick' else 6000
+
+
+def mode_filter(cfg, group, mode):
+    # 24-bit histograms (2^24 draws each) only in the release build
+    return not (group == 'hist' and cfg.bits == 24 and mode != 'rel')
 
 
 def encode(cfg, group, args):
@@ -126,11 +131,15 @@ def requests(cfg, rng, n, tier, part, nparts, st):
             yield 'hist', (low, low + size - 1, m)
         st['exhaustive'].append('%s: %d range sizes x %d methods x all 2^16 first words' % (cfg.name, len(sizes), per))
         nh = total
-    elif cfg.bits == 24 and tier != 'quick' and part == 0:
-        for k, size in enumerate((3, 2 ** 16 + 1, 2 ** 23 + 1, 2 ** 24 - 1, 12345678, 2 ** 20, 5, 2 ** 24)):
+    elif cfg.bits == 24 and part == 0:
+        # the smallest width that takes the > 16-bit zone formula of sample_single; release build only (2^24 draws per request)
+        sizes24 = (3, 2 ** 16 + 1, 2 ** 23 + 1, 2 ** 24 - 1, 12345678, 2 ** 20, 5, 2 ** 24)
+        if tier == 'quick':
+            sizes24 = sizes24[:4]
+        for k, size in enumerate(sizes24):
             low = cfg.min + (k * 104729) % (2 ** 24 + 1 - size)
             yield 'hist', (low, low + size - 1, (4, 5, 1, 3, 0, 2, 5, 1)[k])
-        st['exhaustive'].append('%s: 8 range sizes x all 2^24 first words' % cfg.name)
+        st['exhaustive'].append('%s: %d range sizes x all 2^24 first words (release build)' % (cfg.name, len(sizes24)))
     m = max(10, (n - nh) // 3) if part == 0 or cfg.bits > 24 else 0
     if cfg.bits <= 24 and part != 0:
         return
@@ -237,7 +246,7 @@ def floors(st, tier):
     out = ['class %r never observed' % c for c in REQUIRED if st['classes'].get(c, 0) == 0]
     if st['ops'].get('observed: a first word was rejected', 0) == 0:
         out.append('no rejected first word was ever observed')
-    if tier == 'thorough' and st['classes'].get('preimage histogram over all first words (24-bit)', 0) == 0:
+    if st['classes'].get('preimage histogram over all first words (24-bit)', 0) == 0:
         out.append('24-bit histograms not observed')
     return out
 
